@@ -490,4 +490,186 @@ theorem sim_opGeom {w : World} (hw : w.Good) (a : Args) : Sim (HS.opGeom w.norm 
             sim_walk
         · sim_walk
 
+/-! ### exception predicates -/
+
+/-- is the named map a boolean map -/
+def nameBool (w : World) (n : String) : Bool :=
+  match w.get? n with
+  | some m => m.kind.isBool
+  | none => false
+
+/-- is the weight map of `deg` (`w=`) a boolean map -/
+def weightBool (w : World) (a : Args) : Bool :=
+  match a.get? "w" with
+  | some n => nameBool w n
+  | none => false
+
+theorem sim_opNvalid {w : World} (hw : w.Good) (a : Args)
+    (hex : (srcBool w a && a.get? "path" == some "str") = false) :
+    Sim (HS.opNvalid w.norm a) (HS.opNvalid w a) := by
+  unfold HS.opNvalid
+  refine sim_withMap hw fun n m hn hget hok hsrc => ?_
+  rcases m.packed_cases hok.2.1 with hp | ⟨co, so, st, cache, view, rfl⟩
+  · simp +instances only [MapObj.norm_of_ne hp]
+    sim_walk0
+  · have hb : srcBool w a = true := hsrc
+    have hpath : (a.get? "path" == some "str") = false := by
+      rw [hb] at hex
+      simpa using hex
+    dsimp +instances only [pkd_norm]
+    simp +instances only [hpath, Bool.false_and]
+    sim_walk
+
+theorem sim_opGenhp {w : World} (hw : w.Good) (a : Args)
+    (hex : (srcBool w a && (a.nat? "ord").isSome) = false) :
+    Sim (HS.opGenhp w.norm a) (HS.opGenhp w a) := by
+  unfold HS.opGenhp
+  refine sim_withMap hw fun n m hn hget hok hsrc => ?_
+  rcases m.packed_cases hok.2.1 with hp | ⟨co, so, st, cache, view, rfl⟩
+  · simp +instances only [MapObj.norm_of_ne hp]
+    sim_walk0
+  · have hb : srcBool w a = true := hsrc
+    have hord : a.nat? "ord" = none := by
+      cases h : a.nat? "ord" with
+      | none => rfl
+      | some o => rw [hb, h] at hex; cases hex
+    dsimp +instances only [pkd_norm]
+    simp +instances only [hord, apiGenerateHealpix_pkd]
+    sim_walk
+
+theorem sim_opDeg {w : World} (hw : w.Good) (a : Args)
+    (hex : (srcBool w a || weightBool w a) = false) :
+    Sim (HS.opDeg w.norm a) (HS.opDeg w a) := by
+  have hex1 : srcBool w a = false := by
+    cases h : srcBool w a with
+    | false => rfl
+    | true => rw [h] at hex; simp at hex
+  have hex2 : weightBool w a = false := by
+    cases h : weightBool w a with
+    | false => rfl
+    | true => rw [h] at hex; simp at hex
+  unfold HS.opDeg
+  refine sim_withMap hw fun n m hn hget hok hsrc => ?_
+  have hp : m.kind ≠ .packed := Kind.ne_packed_of_isBool (by rw [← hsrc]; exact hex1)
+  simp +instances only [MapObj.norm_of_ne hp, World.get?_norm]
+  cases hwn : a.get? "w" with
+  | none => simp only []; sim_walk0
+  | some n' =>
+    simp only []
+    cases hg : w.get? n' with
+    | none => simp only [Option.map_none]; sim_walk0
+    | some wm =>
+      have hwp : wm.kind ≠ .packed := by
+        apply Kind.ne_packed_of_isBool
+        unfold weightBool nameBool at hex2
+        rw [hwn] at hex2
+        simp only [hg] at hex2
+        exact hex2
+      simp +instances only [Option.map_some, MapObj.norm_of_ne hwp]
+      sim_walk0
+
+theorem sim_opMask {w : World} (hw : w.Good) (a : Args) : Sim (HS.opMask w.norm a) (HS.opMask w a) := by
+  unfold HS.opMask
+  refine sim_withMap hw fun n m hn hget hok hsrc => ?_
+  simp only [World.get?_norm]
+  cases hg : w.get? (a.getD "by" "") with
+  | none => simp only [Option.map_none]; exact sim_same w _
+  | some mk =>
+    have hok2 := hw.get hg
+    simp only [Option.map_some]
+    rcases m.packed_cases hok.2.1 with hp | ⟨co, so, st, cache, view, rfl⟩ <;>
+      rcases mk.packed_cases hok2.2.1 with hp2 | ⟨co2, so2, st2, cache2, view2, rfl⟩
+    · simp +instances only [MapObj.norm_of_ne hp, MapObj.norm_of_ne hp2]
+      sim_walk0
+    · simp +instances only [MapObj.norm_of_ne hp, pkd_norm, apiApplyMask_pkd_right]
+      sim_walk0
+    · dsimp +instances only [pkd_norm]
+      simp +instances only [MapObj.norm_of_ne hp2, apiApplyMask_pkd_left]
+      sim_walk
+    · dsimp +instances only [pkd_norm]
+      simp +instances only [apiApplyMask_pkd_left, apiApplyMask_pkd_right]
+      sim_walk
+
+def BoolRhs.norm : BoolRhs → BoolRhs
+  | .const k => .const k
+  | .map b => .map b.norm
+
+/-- the right operand of `bop`, as `opBop` computes it -/
+def bopRhs (w : World) (a : Args) : Option BoolRhs :=
+  match a.get? "const", a.get? "rhs" with
+  | some "T", _ => some (.const true)
+  | some "F", _ => some (.const false)
+  | _, some r => (w.get? r).map .map
+  | _, _ => none
+
+theorem bopRhs_norm (w : World) (a : Args) : bopRhs w.norm a = (bopRhs w a).map BoolRhs.norm := by
+  unfold bopRhs
+  split
+  · rfl
+  · rfl
+  · rw [World.get?_norm]
+    cases w.get? _ <;> rfl
+  · rfl
+
+theorem bopRhs_ok {w : World} (hw : w.Good) {a : Args} {b : MapObj} (h : bopRhs w a = some (.map b)) :
+    b.Ok := by
+  unfold bopRhs at h
+  split at h
+  · cases h
+  · cases h
+  · cases hg : w.get? _ with
+    | none => rw [hg] at h; cases h
+    | some b' =>
+      rw [hg] at h
+      cases h
+      exact hw.get hg
+  · cases h
+
+theorem opBop_eq (w : World) (a : Args) : HS.opBop w a =
+    withMap w a fun m =>
+      let n := a.pos.headD ""
+      match bopRhs w a with
+      | none => (w, "bad-op:rhs")
+      | some rhs =>
+        let inPlace := a.flag "inplace"
+        match apiBoolOp m (a.getD "op" "and") rhs inPlace with
+        | .ok st =>
+          if inPlace then (w.put n { m with st := st, cache := none }, "ok")
+          else (w.bind (a.getD "r" "tmp") { m with st := st, cache := none }, "ok")
+        | .error e => ((if inPlace && m.kind.isBool then w.put n { m with cache := none } else w), errLine e) := rfl
+
+theorem sim_opBop {w : World} (hw : w.Good) (a : Args) : Sim (HS.opBop w.norm a) (HS.opBop w a) := by
+  rw [opBop_eq, opBop_eq]
+  refine sim_withMap hw fun n m hn hget hok hsrc => ?_
+  simp only [bopRhs_norm]
+  cases hr : bopRhs w a with
+  | none => simp only [Option.map_none]; exact sim_same w _
+  | some rhs =>
+    simp only [Option.map_some]
+    cases rhs with
+    | const k =>
+      simp only [BoolRhs.norm]
+      rcases m.packed_cases hok.2.1 with hp | ⟨co, so, st, cache, view, rfl⟩
+      · simp +instances only [MapObj.norm_of_ne hp]
+        sim_walk0
+      · dsimp +instances only [pkd_norm]
+        simp +instances only [apiBoolOp_pkd_left]
+        sim_walk
+    | map b =>
+      have hbok := bopRhs_ok hw hr
+      simp only [BoolRhs.norm]
+      rcases m.packed_cases hok.2.1 with hp | ⟨co, so, st, cache, view, rfl⟩ <;>
+        rcases b.packed_cases hbok.2.1 with hp2 | ⟨co2, so2, st2, cache2, view2, rfl⟩
+      · simp +instances only [MapObj.norm_of_ne hp, MapObj.norm_of_ne hp2]
+        sim_walk0
+      · simp +instances only [MapObj.norm_of_ne hp, pkd_norm, apiBoolOp_pkd_right]
+        sim_walk0
+      · dsimp +instances only [pkd_norm]
+        simp +instances only [MapObj.norm_of_ne hp2, apiBoolOp_pkd_left]
+        sim_walk
+      · dsimp +instances only [pkd_norm]
+        simp +instances only [apiBoolOp_pkd_left, apiBoolOp_pkd_right]
+        sim_walk
+
+
 end HS
